@@ -30,6 +30,10 @@ ShapesOf(ch) ==
   LET base == [progVia |-> "inline", nfiles |-> 1, same |-> FALSE, nsel |-> 0, out |-> "none", badProg |-> FALSE, badAt |-> 0, badKind |-> "none"] IN
   CASE ch \in {"prog-str", "prog-re", "prog-ws", "prog-cmt", "prog-head", "prog-tail"} ->
          {[base EXCEPT !.progVia = v, !.out = o] : v \in {"inline", "file"}, o \in {"none", "path"}}
+    \* the whole program: also with input on stdin (what is no program text must not be taken for one, nor an
+    \* argument for the program) and with the document printed
+    [] ch = "prog-all" ->
+         {[base EXCEPT !.progVia = v, !.nfiles = n, !.out = o] : v \in {"inline", "file"}, n \in {0, 1}, o \in {"none", "dash", "path"}}
     [] ch \in {"input-str", "input-ws", "input-tail"} ->
          {[base EXCEPT !.nfiles = n, !.out = o] : n \in {0, 1}, o \in {"none", "dash"}}
     \* the beginning of an input: also of the second of two files
@@ -79,7 +83,8 @@ Complete ==
                  /\ ch \in RawOutChans => \E t \in TextsOf(ch) : t # <<>> /\ t[Len(t)] # NL
   /\ (picked /\ pc = "parse") =>
      /\ cfg.text.bytes \in TextsOf(cfg.text.chan) /\ Plain(cfg) \in ShapesOf(cfg.text.chan)
-     /\ Cardinality(InChans \cup OutChans) = 17
+     /\ Cardinality(InChans \cup OutChans) = 18
+     /\ <<>> \in TextsOf("prog-all")
 
 Vec ==
   (pc = "exit" /\ status # -1) =>
